@@ -3,6 +3,7 @@
 mod c03;
 mod c04;
 mod c07;
+mod c09;
 mod payments;
 mod sim;
 
@@ -12,6 +13,7 @@ fn main() {
         "C03" => c03::run(cfg),
         "C04" => c04::run(cfg),
         "C07" => c07::run(cfg),
+        "C09" => c09::run(cfg),
         other => {
             eprintln!("vh-node: unknown property {other}");
             std::process::exit(2);
